@@ -194,11 +194,11 @@ func (v *Vue) evalObjectBinding(ctx VueContext, attrName, expr string) string {
 	}
 
 	content := expr[1 : len(expr)-1] // Remove { }
-	pairs, pairValues := v.parseObjectPairs(ctx, content)
+	keys, pairs, pairValues := v.parseObjectPairs(ctx, content)
 
 	switch attrName {
 	case "class":
-		return v.buildClassString(pairs, pairValues)
+		return v.buildClassString(keys, pairValues)
 	case "style":
 		return v.buildStyleString(pairs)
 	}
@@ -214,10 +214,12 @@ func (v *Vue) evalObjectBinding(ctx VueContext, attrName, expr string) string {
 }
 
 // parseObjectPairs parses key:value pairs from an object literal.
-// Returns a slice of "key:value" strings in order, and the resolved values
-// themselves (same indices) so that truthiness is decided on the real value
-// rather than on its printed form.
-func (v *Vue) parseObjectPairs(ctx VueContext, content string) ([]string, []any) {
+// Returns the keys, a slice of "key:value" strings in order, and the resolved
+// values themselves (same indices) so that truthiness is decided on the real
+// value rather than on its printed form. A key may itself contain a colon when
+// it is quoted ('md:flex'), so the keys are returned on their own.
+func (v *Vue) parseObjectPairs(ctx VueContext, content string) ([]string, []string, []any) {
+	var keys []string
 	var pairs []string
 	var values []any
 
@@ -230,8 +232,8 @@ func (v *Vue) parseObjectPairs(ctx VueContext, content string) ([]string, []any)
 			continue
 		}
 
-		// Split by colon
-		colonIdx := strings.Index(item, ":")
+		// Split at the first colon that is not inside a quoted key
+		colonIdx := indexOutsideQuotes(item, ':')
 		if colonIdx == -1 {
 			continue
 		}
@@ -247,18 +249,39 @@ func (v *Vue) parseObjectPairs(ctx VueContext, content string) ([]string, []any)
 			var ok bool
 			val, ok = ctx.stack.Resolve(valueExpr)
 			if !ok {
+				keys = append(keys, "")
 				pairs = append(pairs, "")
 				values = append(values, nil)
 				continue
 			}
 		}
 
-		// Store both key and resolved value
+		// Store the key, the printed pair and the resolved value
+		keys = append(keys, key)
 		pairs = append(pairs, fmt.Sprintf("%s:%v", key, val))
 		values = append(values, val)
 	}
 
-	return pairs, values
+	return keys, pairs, values
+}
+
+// indexOutsideQuotes returns the index of the first occurrence of ch in s that
+// is not inside a single- or double-quoted string, or -1.
+func indexOutsideQuotes(s string, ch byte) int {
+	quote := byte(0)
+	for i := 0; i < len(s); i++ {
+		switch c := s[i]; {
+		case quote != 0:
+			if c == quote {
+				quote = 0
+			}
+		case c == '\'' || c == '"':
+			quote = c
+		case c == ch:
+			return i
+		}
+	}
+	return -1
 }
 
 // splitObjectItems splits comma-separated items in an object, respecting quoted strings.
@@ -299,23 +322,16 @@ func (v *Vue) splitObjectItems(content string) []string {
 	return items
 }
 
-// buildClassString builds a space-separated class string from key:value pairs.
-// Includes key only if the boolean value is truthy.
-func (v *Vue) buildClassString(pairs []string, values []any) string {
+// buildClassString builds a space-separated class string from the keys whose
+// values are truthy.
+func (v *Vue) buildClassString(keys []string, values []any) string {
 	var classes []string
 
-	for i, pair := range pairs {
-		pair = strings.TrimSpace(pair)
-		if pair == "" {
+	for i, key := range keys {
+		key = strings.TrimSpace(key)
+		if key == "" {
 			continue
 		}
-
-		colonIdx := strings.Index(pair, ":")
-		if colonIdx == -1 {
-			continue
-		}
-
-		key := strings.TrimSpace(pair[:colonIdx])
 
 		// Check if value is truthy using the actual (typed) value
 		if i < len(values) && helpers.IsTruthy(values[i]) {
